@@ -105,6 +105,7 @@ func execPlan(t *testing.T, ck *Check, plan *sim.Plan) (*sim.Outcome, []sim.Viol
 					st.DropAt[n] = true
 				}
 			}
+			st.ErrMatch = plan.Params["redis_err_match"]
 			redisStore = st
 			simredis.Install(st)
 			defer simredis.Install(nil)
